@@ -193,6 +193,10 @@ class Machine:
         pool = self.cfg["clash_pool"] if self.cfg.get("clash") else gen.REFS
         name = rng.choice(pool)
         v = gen.gen_value(rng, self.fresh, m, self.cfg, where if isinstance(where, rm.RSpace) else None)
+        if self.cfg.get("split_ref_names"):
+            # a name is either always object-valued or never (an int turned into a scalar cells would be coerced by
+            # arithmetic in formulas written for the int: outside the export subset)
+            name = rng.choice(["q", "n"] if v["t"] == "obj" else ["k", "m"])
         op = {"op": "set_ref", "space": where.path(), "name": name, "value": v}
         if isinstance(where, rm.RSpace) and (v["t"] == "obj" or (rng.random() < 0.3 and not self.cfg.get("no_literal_modes"))):
             op["mode"] = rng.choice(["auto", "absolute", "relative"]) if v["t"] == "obj" else rng.choice(["auto", "absolute"])
@@ -202,6 +206,8 @@ class Machine:
                 t = m.space(v.get("space") or "")
                 if not (isinstance(t, rm.RSpace) and t is where):
                     op["mode"] = "auto"
+            if self.cfg.get("objref_modes") and v["t"] == "obj":
+                op["mode"] = rng.choice(self.cfg["objref_modes"])
         return op
 
     def g_del_ref(self):
